@@ -3,7 +3,7 @@
 From Coq Require Import List NArith Bool Lia.
 From Verif Require Import Common.Util Bft.Tree Bft.Model Bft.Quorum Bft.ProofsTally Bft.ProofsChain Bft.ProofsNode
   Bft.Safety Bft.ProofsWitness Bft.ProofsFinal Bft.ProofsMonotone Bft.ProofsCommit
-  Bft.ProofsFind Bft.ProofsLive Bft.ProofsLive2 Bft.ProofsVote Bft.ProofsSuffix.
+  Bft.ProofsFind Bft.ProofsLive Bft.ProofsLive2 Bft.ProofsVote Bft.ProofsSuffix Bft.ProofsSafety.
 Import ListNotations.
 Open Scope N_scope.
 
@@ -156,6 +156,44 @@ Qed.
       needs two honest validators to move, at equal quality, to a head that does not extend their last vote
       (f4_needs_tie_switch); whether real block production (scheduler scores) permits that is not settled, so the
       safety statement under the explicit fork-choice premise stays a Prop (bft_safety_under_premise): _partial. *)
+(* proved parts of the safety argument (DESIGN §4): the node invariants hold along any event history; Lemma A; Lemma B;
+   the intersection half of same_quality_commit_exclusive.  What stays open: same_quality_commit_exclusive itself (the
+   run-level link "the later of an honest validator's two COM votes still sees the earlier one in its votes record",
+   across Mark overwrites, restarts and the finalized filter) and bft_safety_under_premise. *)
+Theorem node_invariants_along_events c guard nd : 0 < c_L c -> inv c nd ->
+  (forall b, valid_child (n_repo nd) b -> inv c (fst (import guard c nd b))) /\
+  (forall b, valid_child (n_repo nd) b -> known (n_repo nd) (b_id b) = false -> known (n_repo nd) (b_parent b) = true ->
+             inv c (fst (fst (propose guard c nd b)))) /\
+  inv c (restart nd).
+Proof.
+  intros HL Hi. split; [intros b Hv; exact (import_inv c HL guard nd b Hi Hv)|].
+  split; [intros b Hv Hf Hp; exact (propose_inv c HL guard nd b Hi Hv Hf Hp) | exact (restart_inv c nd Hi)].
+Qed.
+
+Theorem lemma_A_head_quality_monotone c nd x : 0 < c_L c -> inv c nd -> In x (n_repo nd) ->
+  qual c (n_repo nd) x <= qual c (n_repo nd) (best_blk nd).
+Proof. intros HL. exact (head_quality_monotone c HL nd x). Qed.
+
+Theorem lemma_B_com_lock c r e parent e' :
+  should_vote c r e parent = (e', Ok true) ->
+  exists p recent ca,
+    find_blk r parent = Some p /\ e_casts e' = Some ca /\
+    0 < s_q (compute_state c r (e_qs e) p) /\ (idnum parent + 1) / c_L c <> 0 /\
+    (forall cp q, In (cp, q) ca -> idnum (e_fin e) <= idnum cp -> s_q (compute_state c r (e_qs e) p) - 1 <= q ->
+       has_block r cp recent = true \/ has_block r recent cp = true).
+Proof. exact (should_vote_com_inv c r e parent e'). Qed.
+
+Theorem same_quality_commit_exclusive_partial c pq1 pq2 seg1 seg2 (u byz : list N) :
+  thr_weight c = 0 -> incl (signers seg1) u -> incl (signers seg2) u -> N.of_nat (length u) <= c_mbp c -> c_pos c = false ->
+  NoDup byz -> 3 * N.of_nat (length byz) < c_mbp c ->
+  s_comm (summarize (tally c pq1 seg1)) = true -> s_comm (summarize (tally c pq2 seg2)) = true ->
+  exists h, ~ In h byz /\
+    (exists x, In x seg1 /\ b_signer x = h) /\ (forall x, In x seg1 -> b_signer x = h -> b_com x = true) /\
+    (exists x, In x seg2 /\ b_signer x = h) /\ (forall x, In x seg2 -> b_signer x = h -> b_com x = true).
+Proof. intros Hp. exact (double_commit_honest_voter c Hp pq1 pq2 seg1 seg2 u byz). Qed.
+
+Definition same_quality_commit_exclusive := same_quality_commit_exclusive_statement true.
+
 Definition bft_safety_without_premise := bft_safety_statement true.
 Definition bft_safety_under_premise := bft_safety_under_premise_statement true.
 
@@ -185,5 +223,9 @@ Print Assumptions honest_vote_on_one_chain.
 Print Assumptions quorum_is_justified.
 Print Assumptions linear_liveness.
 Print Assumptions finalized_advances_at_store_point.
+Print Assumptions node_invariants_along_events.
+Print Assumptions lemma_A_head_quality_monotone.
+Print Assumptions lemma_B_com_lock.
+Print Assumptions same_quality_commit_exclusive_partial.
 Print Assumptions bft_safety_without_premise_refuted.
 Print Assumptions f4_needs_tie_switch.
